@@ -19,7 +19,7 @@ def noDup : List String → Bool
   | [] => true
   | x :: xs => !(xs.contains x) && noDup xs
 
-partial def expVars : Exp α → List String
+def expVars : Exp α → List String
   | .num _ => []
   | .var s => [s]
   | .abs e | .not e | .un _ e => expVars e
